@@ -143,6 +143,45 @@ def run_frame(mods, c, partner, seed, kind, scenario, calls):
   return out, meta
 
 
+def run_prespend(mods, c, partner, seed, kind):
+  """Control never spends, treatment already spends before the test: pre-period cost is not zero, so this is NOT the
+  fixed-cost scenario and the cost report must be the regression-based one. The control cost series is constant, so
+  the cost regression is rank-deficient (fit = mean of the pre-period treatment cost); only the two identities that do
+  not involve the posterior scale are judged, and only when the report succeeds."""
+  pd, np = mods['pd'], mods['np']
+  n = len([p for p in c['lab'] if p == 0])
+  cy = [int(v) for v in partner['y']]
+  if len(cy) != len(c['y']) or len(set(cy[:n])) < 2:
+    return None
+  cost_tot = ([0] * len(cy), cy)
+  rows, meta = base.build_rows(c, kind, seed, cost=cost_tot, fixed=False, salt='prespend')
+  df = base.to_frame(pd, rows, True)
+  try:
+    model = mods['iroas'].TBRiROAS(use_cooldown=True)
+    model.fit(df)
+    ts = model.estimate_pointwise_and_cumulative_effect(metric='tbr_cost', level=0.9, tails=2)
+  except ValueError as e:
+    if 'bound is not' in str(e):
+      return ('skipped', None, meta)       # ordering of a rank-deficient posterior: not specified here
+    return ('ReportSucceeds', 'ValueError: %s' % e, meta)
+  except Exception as e:  # pylint: disable=broad-except
+    return ('ReportSucceeds', '%s: %s' % (type(e).__name__, e), meta)
+  cf = ts.counterfactual['estimate'].to_numpy(dtype=float)
+  pw = ts.pointwise_difference['estimate'].to_numpy(dtype=float)
+  obs = [float(v) for v in cy]
+  if len(cf) != len(obs) or len(pw) != len(obs):
+    return ('Dates', '%d / %d rows for %d dates' % (len(cf), len(pw), len(obs)), meta)
+  for i in range(len(obs)):
+    if not base.close(cf[i] + pw[i], obs[i], max(abs(cf[i]), abs(pw[i]), 1.0)):
+      return ('CounterfactualPlusPointwiseIsObserved', 'date %d: %.12g + %.12g != observed cost %.12g' % (i, cf[i], pw[i], obs[i]), meta)
+  mean = sum(obs[:n]) / float(n)
+  for i in range(n):
+    if not base.close(pw[i], obs[i] - mean, max(abs(obs[i]), 1.0)):
+      return ('PrePeriodPointwiseAreResiduals', 'treatment spends before the test (control never): pre-period date %d '
+              'pointwise %.12g, residual of the cost regression %.12g' % (i, pw[i], obs[i] - mean), meta)
+  return ('ok', None, meta)
+
+
 def calls_for(idx, fi, low):
   a = LEVEL_TAILS[(idx + fi) % 4]
   b = LEVEL_TAILS[(idx + fi + 1 + (idx // 4) % 3) % 4]
@@ -181,6 +220,15 @@ def work(job):
                                           'kind': kind, 'scenario': scenario, 'seed': seed, 'metric': r['metric'],
                                           'level': r['level'], 'tails': r['tails'], 'frame': meta},
                             r['detail'], r['key']))
+  if idx % 4 == 1:
+    pr = run_prespend(mods, c, partner, seed, KINDS[idx % len(KINDS)])
+    if pr is not None:
+      out['traces'] += 1
+      out['stats']['prespend:' + (pr[0] if pr[0] in ('ok', 'skipped') else 'violation')] = 1
+      if pr[0] not in ('ok', 'skipped'):
+        out['viol'].append((pr[0], {'case': base.case_public(c), 'cost_case': base.case_public(partner),
+                                    'kind': KINDS[idx % len(KINDS)], 'scenario': 'treatment_prespend', 'seed': seed,
+                                    'metric': 'tbr_cost', 'level': 0.9, 'tails': 2, 'frame': pr[2]}, pr[1], None))
   return out
 
 
@@ -255,6 +303,11 @@ def replay(res, blob):
   v = blob['case']
   res.traces += 1
   res.case_seen('replay')
+  if v['scenario'] == 'treatment_prespend':
+    pr = run_prespend(mods, v['case'], v['cost_case'], v['seed'], v['kind'])
+    if pr is not None and pr[0] not in ('ok', 'skipped'):
+      res.violate(pr[0], v, pr[1])
+    return
   results, _ = run_frame(mods, v['case'], v['cost_case'], v['seed'], v['kind'], v['scenario'],
                          [(v['metric'], v['level'], v['tails'])])
   for r in results:
